@@ -54,16 +54,29 @@ def find_callee_fns(F, c, n):
         d = (c.dfn(f.get("inst")) or c.dfn(f.get("def"))) if f.get("k") == "Path" else None
     if d is None:
         return []
-    return [g for g in INDEX.get((d["krate"], d.get("raw")), [])]
+    out = [g for g in INDEX.get((d["krate"], d.get("raw")), [])]
+    if not out and d.get("krate", "").startswith("linfa"):
+        # a required trait method called on a generic Self (NaiveBayes::joint_log_likelihood, Link dispatch, ...): the
+        # declaration has no body; every implementation in the workspace may be the callee
+        segs = (d.get("path") or "").split("::")
+        if len(segs) >= 2:
+            tr = segs[-2]
+            out = [g for g in TRAIT_IMPLS.get((tr, d["name"]), [])]
+    return out
 
 
 INDEX = {}
+TRAIT_IMPLS = {}
 
 
 def build_index(F):
     INDEX.clear()
+    TRAIT_IMPLS.clear()
     for fn in F.all_fns():
         INDEX.setdefault((fn["d"]["krate"], fn["d"].get("raw")), []).append(fn)
+        t = fn["d"].get("trait")
+        if t and fn["d"].get("pk") == "impl":
+            TRAIT_IMPLS.setdefault((t.split("::")[-1].split("<")[0], fn["d"]["name"]), []).append(fn)
 
 
 def rule_forms(ctx):
@@ -559,7 +572,31 @@ class BatchAxis:
                     self.loop_state(n, body, env)
                 self.visit(body, env)
             return None
-        if kk in ("If", "Match", "Loop", "Ret", "Break", "Struct", "Tup", "Array", "Let", "Closure"):
+        if kk == "If":
+            ca = self.ax(n["c"], env)
+            if ca == "count":
+                # a branch on the number of rows of the batch: the same row is then computed one way in a small batch and
+                # another way in a large one. Only an exit (empty batch, shape assertion) may depend on the row count.
+                def diverges(b):
+                    b = strip(b) if b is not None else None
+                    if b is None:
+                        return False
+                    last = b
+                    if b.get("k") == "Block":
+                        last = strip(b.get("e") or (b["stmts"][-1] if b["stmts"] else b))
+                    if last.get("k") in ("Ret", "Break", "Continue"):
+                        return True
+                    if last.get("k") == "Call":
+                        f = strip(last["f"])
+                        return f.get("k") == "Path" and ((self.c.dfn(f.get("def")) or {}).get("name") or "").startswith(("panic", "begin_panic", "assert_failed", "unreachable"))
+                    return False
+                if not diverges(n["then"]) and not diverges(n.get("else")):
+                    self.report("batch-size-branch", n["c"], "the computation branches on the number of rows of the batch, so a row's result depends on how many rows are predicted with it")
+            for ch in (n["then"], n.get("else")):
+                if ch is not None:
+                    self.ax(ch, env)
+            return None
+        if kk in ("Match", "Loop", "Ret", "Break", "Struct", "Tup", "Array", "Let", "Closure"):
             for ch in children(n):
                 if ch.get("k") == "Closure":
                     self.visit(ch["body"], env)
@@ -739,6 +776,20 @@ def rule_composite(ctx):
                 break
         if not found:
             res.undecided("%s : argmax-not-found" % key, "running arg-max over (label, probability) pairs not found (fail closed)", fn_loc(fn))
+        # the incumbent label must be a member's label from the start: an incumbent seeded with `L::default()` survives
+        # whenever no member beats the seed probability (all members report 0), and L::default() need not be any member's label
+        out_ty = (fn["inputs"][2] if len(fn["inputs"]) > 2 else "")
+        m_ = re.search(r"<\s*(\w+)\s*>\s*$|<\s*(\w+)\s*,", out_ty.replace("&mut ", ""))
+        lab = None
+        for cand in re.findall(r"\b([A-Z]\w*)\b", out_ty):
+            if cand not in ("Array1", "ArrayBase", "OwnedRepr", "Dim", "Ix1", "Array"):
+                lab = cand
+        res.instance("%s : incumbent label comes from a member" % key)
+        seeded = [x for x in walk(fn["body"]) if x.get("k") == "Call" and not x["args"] and strip(x["f"]).get("k") == "Path" and (c.dfn(strip(x["f"]).get("def")) or {}).get("name") == "default" and (c.ty(x.get("t")) or "") == (lab or "L")]
+        if seeded:
+            res.violate("%s : incumbent-label-not-a-member" % key, "the running arg-max is seeded with `%s::default()`: a row on which no member beats the seed probability keeps that label, which need not be the label of any member model" % (lab or "L"), fn_loc(fn, seeded[0]["ln"]))
+        else:
+            res.ok()
     # MultiTargetModel: into_shape((models, n)) followed by reversed_axes
     for fn in [f for f in predictors(F) if (f["d"].get("self_adt") or "").endswith("MultiTargetModel") and f["d"]["name"] == "predict_inplace"]:
         r = Render(fn["crate"])
